@@ -504,8 +504,10 @@ pub fn run(args: &[String]) {
       match guarded(|| completion::auto_complete(st, &d, Position(loc.end.0, loc.end.1))) {
         Ok(items) => {
           for it in items {
-            if it.label == cls {
-              // a completion item does not name the module; the specification accepts any exporter
+            if it.label == cls || before.locals.contains(&it.label) {
+              // a completion item does not name the module; the specification accepts any exporter.
+              // Items for the names the document declares itself are judged too (as proposals about THAT name):
+              // they must not carry edits
               proposals.push((format!("completion@{i}"), it.label.clone(), String::new(), edits_of(&st.heap, &it.additional_edits)));
             }
           }
@@ -528,6 +530,9 @@ pub fn run(args: &[String]) {
         "imports_seq_before": before.imports_seq.iter().map(|(m, n)| json!([m, n])).collect::<Vec<_>>(),
         "locals_before": before.locals,
       });
+      if named_cls != cls {
+        rec["cls"] = json!(named_cls);
+      }
       match apply_edits(&doc, &edits) {
         Err(why) => {
           rec["applied"] = json!(false);
